@@ -122,6 +122,10 @@ class AsyncPolicy:
         except Exception as exc:
             self._handle_exception_call(ctx, exc, on_attempt_end)
             raise
+        except BaseException:
+            # GeneratorExit and any other non-Exception exit: the admitted call is over.
+            record_cancel(ctx)
+            raise
 
     async def _call_without_retry(
         self,
@@ -156,6 +160,7 @@ class AsyncPolicy:
         on_end: AttemptHook | None,
     ) -> None:
         """Handle AbortRetryError in call mode."""
+        record_cancel(ctx)
         if self.retry is None and on_end is not None:
             on_end(
                 make_attempt_context(
@@ -167,7 +172,6 @@ class AsyncPolicy:
                     stop_reason=StopReason.ABORTED,
                 )
             )
-        record_cancel(ctx)
 
     def _handle_exhausted_call(
         self,
@@ -186,7 +190,13 @@ class AsyncPolicy:
     ) -> None:
         """Handle general exception in call mode."""
         if isinstance(exc, CircuitOpenError):
+            # A rejection by a nested breaker is not a failure of this dependency,
+            # but the admitted call is over: release the slot without counting it.
+            record_cancel(ctx)
             return
+
+        klass = classify_for_breaker(exc, self.retry)
+        record_failure(ctx, klass)
 
         if self.retry is None and on_end is not None:
             on_end(
@@ -199,9 +209,6 @@ class AsyncPolicy:
                     cause="exception",
                 )
             )
-
-        klass = classify_for_breaker(exc, self.retry)
-        record_failure(ctx, klass)
 
     async def execute(
         self,
@@ -270,19 +277,32 @@ class AsyncPolicy:
         """Execute with retry and record result with breaker."""
         retry = self.retry
         assert retry is not None
-        outcome = await retry.execute(
-            func,
-            on_metric=on_metric,
-            on_log=on_log,
-            operation=operation,
-            abort_if=abort_if,
-            sleep=sleep,
-            before_sleep=before_sleep,
-            sleeper=sleeper,
-            on_attempt_start=on_attempt_start,
-            on_attempt_end=on_attempt_end,
-            capture_timeline=capture_timeline,
-        )
+        try:
+            outcome = await retry.execute(
+                func,
+                on_metric=on_metric,
+                on_log=on_log,
+                operation=operation,
+                abort_if=abort_if,
+                sleep=sleep,
+                before_sleep=before_sleep,
+                sleeper=sleeper,
+                on_attempt_start=on_attempt_start,
+                on_attempt_end=on_attempt_end,
+                capture_timeline=capture_timeline,
+            )
+        except RetryExhaustedError as exc:
+            # Raised by the operation itself (nested policy): same record as call().
+            record_failure(ctx, exc.last_class or ErrorClass.UNKNOWN)
+            raise
+        except Exception as exc:
+            # Errors from the caller's own classifier/strategy/sleeper/hooks.
+            record_failure(ctx, classify_for_breaker(exc, retry))
+            raise
+        except BaseException:
+            # Cancellation, KeyboardInterrupt, SystemExit, GeneratorExit.
+            record_cancel(ctx)
+            raise
 
         # Record with circuit breaker
         if ctx.breaker is not None:
@@ -348,6 +368,11 @@ class AsyncPolicy:
                     )
                 )
             return build_exception_outcome_no_retry(ctx, exc, klass)
+
+        except BaseException:
+            # GeneratorExit and any other non-Exception exit: the admitted call is over.
+            record_cancel(ctx)
+            raise
 
         # Success
         record_success(ctx)
